@@ -35,6 +35,12 @@ def make(i, tier):
         r = rng.random()
         if r < 0.2:
             ex["via"] = "raw" if r < 0.1 else "raw-noid"
+    if scn["executions"] and rng.random() < 0.08:
+        # two byte-identical anonymous start events (same machine, same input, no name, no message id) at one instant
+        ex = dict(scn["executions"][0], via="raw-anon", name=None)
+        twin = dict(ex)
+        scn["executions"][0] = ex
+        scn["executions"].append(twin)
     from checks import c11
     c11.add_logging(random.Random(seed ^ 0x102), scn, 0.3)     # (what is logged must not get in the way of the end)
     return seed, scn, models, skipped
